@@ -504,21 +504,23 @@ def rule_r10(facts, col, rule_id="C02.R10"):
         if body.kind == "closure" or body.name != "read_buf" or not (body.self_adt or "").startswith("circular_buffer::Buffer"):
             continue
         n += 1
-        locks = [(body, bb) for bb, t in body.calls_to(MUTEX_LOCK)]
+        # acquisitions, not call sites: a helper that locks counts once per call to it (`with_state(..)` twice = two acquisitions)
         seen = {body.q}
-        frontier = [body]
-        for _ in range(3):
-            nxt = []
-            for b in frontier:
-                for bb, t in b.calls():
-                    for q in Body.callee_qs(t):
-                        for hb in facts.by_q.get(q, []):
-                            if hb.q in seen or hb.kind == "closure" or hb.file not in ("src/circular_buffer.rs", "src/stream.rs"):
-                                continue
-                            seen.add(hb.q)
-                            nxt.append(hb)
-                            locks += [(hb, lb) for lb, lt in hb.calls_to(MUTEX_LOCK)]
-            frontier = nxt
+
+        def acquisitions(b, depth=0):
+            out = [(b, bb) for bb, t in b.calls_to(MUTEX_LOCK)]
+            if depth >= 3:
+                return out
+            for bb, t in b.calls():
+                for q in Body.callee_qs(t):
+                    for hb in facts.by_q.get(q, []):
+                        if hb.kind == "closure" or hb is b or hb.file not in ("src/circular_buffer.rs", "src/stream.rs"):
+                            continue
+                        seen.add(hb.q)
+                        sub = acquisitions(hb, depth + 1)
+                        out += [(b, bb)] * len(sub) if sub else []
+            return out
+        locks = acquisitions(body)
         key = "%s:one-lock" % body.q
         if len(locks) == 1:
             col.ok(rule_id, key, body.where(locks[0][1]), "one lock acquisition covers the window bounds and the tag list (%d callees followed)" % (len(seen) - 1))
@@ -533,8 +535,67 @@ def rule_r10(facts, col, rule_id="C02.R10"):
     return n
 
 
+_STREAM_API = {"read_range", "write_range", "capacity", "free", "new", "slice", "slice_mut", "full_buffer", "len", "is_empty", "total_size",
+               "consume", "produce", "read_buf", "write_buf", "wait_for_read", "wait_for_write", "iter", "fill_from_slice", "fill_from_iter"}
+
+
+class _StreamView:
+    """facts in which the ring's entry points (methods of Buffer) are shown with their *private helpers* substituted in:
+    methods of BufferState / Buffer that are not part of the established API - `commit_tags(n, tags)`, `window_tags(start, end)`,
+    a lock-and-run `with_state(|s| ..)` together with the closure handed to it.  The helpers that every caller inlined are
+    removed from `bodies`, so who-may-write rules judge the entry points, as they do on the unrefactored code."""
+
+    def __init__(self, facts):
+        from ..inline import inline_body
+        self._f = facts
+        helpers = set()
+        for b in facts.bodies:
+            if b.kind == "closure" or b.file != "src/circular_buffer.rs" or b.name in _STREAM_API:
+                continue
+            if (b.self_adt or "") in ("circular_buffer::BufferState", "circular_buffer::Buffer") or b.self_adt is None:
+                helpers.add(b.q)
+        self.inlined_helpers = set()
+        out = []
+        for b in facts.bodies:
+            if b.kind != "closure" and b.file == "src/circular_buffer.rs" and (b.self_adt or "").startswith("circular_buffer::Buffer") \
+                    and b.q not in helpers and b.name in _STREAM_API:
+                try:
+                    nb, inl = inline_body(facts, b, lambda hb: hb.q in helpers or hb.kind == "closure", depth=3, closures=True)
+                except Exception:
+                    nb, inl = b, []
+                if inl:
+                    self.inlined_helpers |= set(inl)
+                    out.append(nb)
+                    continue
+            out.append(b)
+        closures_gone = set()
+        self.bodies = [b for b in out if not (b.q in self.inlined_helpers and b.q in helpers)]
+        self.changed = bool(self.inlined_helpers)
+
+    def __getattr__(self, name):
+        return getattr(self._f, name)
+
+    def callers_of(self, pred):
+        if isinstance(pred, str):
+            names = {pred}
+            pred = lambda q: q in names
+        elif isinstance(pred, (set, frozenset, list, tuple)):
+            names = set(pred)
+            pred = lambda q: q in names
+        for b in self.bodies:
+            for i, t in b.calls():
+                if any(pred(q) for q in Body.callee_qs(t)):
+                    yield b, i, t
+
+
+def stream_view(facts):
+    v = _StreamView(facts)
+    return v if v.changed else facts
+
+
 def run(ctx):
-    facts = ctx.facts("default")
+    facts0 = ctx.facts("default")
+    facts = stream_view(facts0)        # identical to facts0 unless the ring's entry points use private helpers
     ctx.anchor("C02", c01.STATE_ADT in facts.adts, "circular_buffer::BufferState")
     rule_r1(facts, ctx)
     rule_r2(facts, ctx)
@@ -543,7 +604,7 @@ def run(ctx):
     rule_r5(facts, ctx)
     rule_r9(facts, ctx)
     ctx.floor("C02.R9", 1, "tag-storing loop of the commit body")
-    rule_r10(facts, ctx)
+    rule_r10(facts0, ctx)
     ctx.floor("C02.R10", 1, "Buffer::read_buf")
     rule_r8(facts, ctx)
     ctx.floor("C02.R8", 1, "Buffer::read_buf")
